@@ -10,7 +10,7 @@
    read fault / write fault / slow write / ping tick / SHIP-layer reaction) leads from the
    state after InitDataProcessing to s.  No bound on the length of the schedule, on the
    number of writer calls or on the messages; the queue capacity is the one in the source. *)
-From Ship Require Import Base Closure Ws WsProofs.
+From Ship Require Import Base Closure Ws WsProofs WsCheck WsCheckProofs.
 From ShipGen Require Import WsTable.
 
 (* no schedule reaches a send on a closed channel, a second close of a channel, or a sender
@@ -65,6 +65,21 @@ Theorem C12_monitor_holds_of_model :
   forall s s', reachable s -> quiet_run (quiet V0) s s' -> mon12 (outcome_of s') = [].
 Proof. exact c12_outcome. Qed.
 Print Assumptions C12_monitor_holds_of_model.
+
+(* the trace monitor of the check (what the peer received against the calls that returned
+   nil) reports nothing whenever the frames are a prefix of some acceptance order that extends
+   the observable real-time order of the calls — i.e. whenever the run is one the model allows
+   by C12_wire_is_prefix_of_accepted; a report therefore refutes the real run *)
+Theorem C12_trace_monitor_sound :
+  forall (c : ws_case) (acc : list N),
+    c_foreign c = 0%N -> NoDup acc ->
+    (forall x, In x acc -> In x (map call_id (ok_calls c))) ->
+    (forall a b, In a (ok_calls c) -> In b (ok_calls c) -> (wc_end a < wc_start b)%N ->
+       exists pa pb, pos_of (call_id a) acc 0%N = Some pa /\ pos_of (call_id b) acc 0%N = Some pb /\ (pa < pb)%N) ->
+    (exists lost_tail, acc = wire_ids c ++ lost_tail) ->
+    wire_codes c = [].
+Proof. exact wire_monitor_sound. Qed.
+Print Assumptions C12_trace_monitor_sound.
 
 (* the tree as it was found violates the property: one message in the pump, one queued, a
    third call blocked on the send, the write fails, the pump closes the queue *)
